@@ -20,12 +20,13 @@ def opObsRegister (l : Nat) : W Unit := do
   let o := w.obs.obj l
   M.assert o.oid.isNone .obsRegistered
   M.assert o.spec.hasCallback .obsNoCallback
-  let (pool, oid) := w.obs.pool.get
-  -- o.id = m.pool.Get()
-  M.set { w with obs := ({ w.obs with pool }).setObj l { o with oid := some oid } }
   match ObsMgr.computeData o.spec (fun c => w.isRelComp c) with
   | none => M.panic .obsNonRelation
-  | some d => M.modify fun w => { w with obs := w.obs.addComputed l o oid d }
+  | some d =>
+    -- o.id = m.pool.Get(), only after every check passed (repaired defect D20: a rejected
+    -- registration leaves the observer unregistered)
+    let (pool, oid) := w.obs.pool.get
+    M.set { w with obs := (({ w.obs with pool }).setObj l { o with oid := some oid }).addComputed l o oid d }
 
 /-- `Observer.Unregister` → `RemoveObserver`. -/
 def opObsUnregister (l : Nat) : W Unit := do
